@@ -4,7 +4,7 @@ from contracts import transport
 ID = "C38"
 T = "paramiko.transport.Transport."
 TARGETS = [T + "_ensure_authed", transport.RUN_ITER]
-REPLAY = {"capture": "c38.auth_reply_garbage", "*": "c38.replay_peer_garbage"}
+REPLAY = {"capture": "c38.auth_reply_garbage", "_perform_exchange": "c38.low_order_curve25519_point", "*": "c38.replay_peer_garbage"}
 MAX_PATHS = 20000
 
 
